@@ -855,6 +855,8 @@ class ComposerBinary(ComposerBase):
                     self.byte_order.value + _SIZE_TO_FORMAT[item_size],
                     value
                 )
+                if item_size == 3 and value >= 2 ** 24:
+                    raise struct.error('argument out of range')
 
                 if item_size == 3:
                     if self.byte_order in [ByteOrder.BIG_ENDIAN, ByteOrder.NETWORK]:
